@@ -5,7 +5,8 @@
 EXTENDS GmxV2, TLC
 
 CONSTANTS Level,   \* 1 = quick (10 pool rows), 2 = thorough (45 pool rows)
-          Depth
+          Depth,
+          Cross    \* TRUE: states carry the account views the cross-market legs (C01/C03/C04) compare
 
 VARIABLES st, last
 vars == <<st, last>>
@@ -64,12 +65,13 @@ Events(s) ==
 
 NoBal == [net |-> Zero, gm |-> Zero, long |-> Zero, short |-> Zero]
 Init == /\ st = InitSt(WL0, WS0)
-        /\ last = [ev |-> [op |-> "init"], out |-> "ok", res |-> NoRes, band |-> FALSE, bal |-> NoBal, rowdata |-> <<>>]
+        /\ last = [ev |-> [op |-> "init"], out |-> "ok", res |-> NoRes, band |-> FALSE, bal |-> NoBal, acct |-> <<>>, rowdata |-> <<>>]
 
 Next == \E ev \in Events(st) :
           LET r == Step(st, ev, Row) IN
           /\ st' = r.st
           /\ last' = [ev |-> ev, out |-> r.out, res |-> r.res, band |-> r.band, bal |-> Balance(r.st, Row(r.st.row)),
+                      acct |-> IF Cross THEN AccountView(r.st, Row(r.st.row)) ELSE <<>>,
                       rowdata |-> IF ev.op = "bar" THEN Row(ev.row) ELSE <<>>]
 
 Spec == Init /\ [][Next]_vars
@@ -85,4 +87,11 @@ Inv_C17_WithdrawValue == (last.ev.op = "wd" /\ last.out = "ok") =>
                             last.res.total_usd = QMul(last.res.gm_usd, QSub(One, WithdrawFeeNeg))
 
 Prop_RejectLeavesState == [][last'.out = "reject" => (st'.wl = st.wl /\ st'.ws = st.ws /\ st'.gm = st.gm)]_vars
+
+(* C03 (frozen market): within a bar no call, accepted or rejected, raises wallet x prices + GM value by more than the wallet
+   dust of the balances it debits plus what the impact pool credits to a balancing deposit                                 *)
+Prop_C03_NoValueCreation ==
+  [][(st.row # 0 /\ last'.ev.op # "bar") =>
+        QLe(AccountUsd(st', Row(st.row)),
+            QAdd(AccountUsd(st, Row(st.row)), QAdd(DustAllowUsd(st, last'.ev, Row(st.row)), last'.res.credit)))]_vars
 =============================================================================
